@@ -429,6 +429,12 @@ def main(pid, argv=None):
                 c.decs.append(dict(msg=rp["msg"], origin="replay", impl=cc.impl_decode(c.obj, rp["msg"])))
     else:
         extra = []
+        if pid in ("C01", "C02", "C04"):
+            # a response mirroring the LAST two bytes of the request (negative REQUEST-BYTE-POS), and the last byte only
+            for rp, ln in ((-2, 2), (-1, 1), (-3, 2)):
+                extra.append(([cc.param("sid", dict(k="coded", dct=cc.std(cc.BUINT, 8), v=0x62)),
+                               cc.param("did", dict(k="matchreq", rqpos=rp, len=ln)),
+                               cc.param("p3", dict(k="value", dop=cc.simple(cc.std(cc.BUINT, 8)), dflt=None))], True, None))
         if pid == "C08":
             # corpus: the recorded finding 'prefix-out-of-order'
             extra.append(([cc.param("p3", dict(k="coded", dct=cc.std(cc.BUINT, 4), v=7), 5),
@@ -445,6 +451,10 @@ def main(pid, argv=None):
             extra.append(([cc.param("sid", dict(k="coded", dct=cc.std(cc.BUINT, 8), v=0x31)), mmc()], False, None))
             extra.append(([cc.param("sid", dict(k="coded", dct=cc.std(cc.BUINT, 8), v=0x31)), mmc(),
                            cc.param("p3", dict(k="value", dop=cc.simple(cc.std(cc.BUINT, 8)), dflt=None))], False, None))
+            # corpus: a response mirroring the LAST two bytes of the request (negative REQUEST-BYTE-POS)
+            extra.append(([cc.param("sid", dict(k="coded", dct=cc.std(cc.BUINT, 8), v=0x62)),
+                           cc.param("did", dict(k="matchreq", rqpos=-2, len=2)),
+                           cc.param("p3", dict(k="value", dop=cc.simple(cc.std(cc.BUINT, 8)), dflt=None))], True, None))
             # corpus: a response mirroring two request bytes (asked with requests ending inside the mirrored range)
             extra.append(([cc.param("sid", dict(k="coded", dct=cc.std(cc.BUINT, 8), v=0x62)),
                            cc.param("did", dict(k="matchreq", rqpos=1, len=2)),
